@@ -51,7 +51,7 @@ def expected_mask(node, this_schema, alias_schemas, qvars):
     return node.data_type.value
 
 
-def check_reference_types(pred, this_schema, alias_schemas, where, inp):
+def check_reference_types(pred, this_schema, alias_schemas, where, inp, sub='predicate'):
     """(2): every reference node's inferred type set contains the declared type of what it names."""
     n_refs = [0]
 
@@ -77,7 +77,7 @@ def check_reference_types(pred, this_schema, alias_schemas, where, inp):
             n_refs[0] += 1
             if not (n.data_type.value & want):
                 raise Violation(
-                    'welltyped', f'reference-type:{typesig.mask_name(want)}', inp,
+                    sub, f'reference-type:{typesig.mask_name(want)}', inp,
                     f'{where}: the reference {n} is declared {typesig.mask_name(want)} in the schema, but its inferred type set is {typesig.mask_name(n.data_type.value)}',
                 )  # fmt: skip
         for k in astx.kids(n):
@@ -100,7 +100,7 @@ def sub_property(inp):
     k, p = lib.outcome('property', text)
     if k != 'ast':
         raise Violation(
-            'welltyped', f'rejected:{k}:{type(p).__name__}', dict(inp, text=text),
+            'property', f'rejected:{k}:{type(p).__name__}', dict(inp, text=text),
             f'a property that is well-typed under its schema is rejected with {type(p).__name__}: {str(p)[:300]}\ntext: {text!r}',
         )  # fmt: skip
     topics = inp['topics']
@@ -110,7 +110,7 @@ def sub_property(inp):
     for evn in (p.scope.activator, p.scope.terminator, p.pattern.trigger, p.pattern.behaviour):
         for se in astx.flat_events(evn):
             if astx.cname(se.predicate) == 'HplPredicateExpression':
-                nrefs += check_reference_types(se.predicate.expression, topics[se.name], alias_schemas, f'event {se.name} of {text!r}', dict(inp, text=text))
+                nrefs += check_reference_types(se.predicate.expression, topics[se.name], alias_schemas, f'event {se.name} of {text!r}', dict(inp, text=text), sub='property')
     tokens = {t: typetok.message(sc, 'T' + str(i)) for i, (t, sc) in enumerate(sorted(topics.items()))}
     types = dict(tokens)
     for a, t in alias_topic.items():
@@ -118,7 +118,7 @@ def sub_property(inp):
     st, r = core.guarded(p.type_check_references, types)
     if st == 'exc':
         raise Violation(
-            'welltyped', f'schema-check:{core.exc_sig(r)}', dict(inp, text=text),
+            'property', f'schema-check:{core.exc_sig(r)}', dict(inp, text=text),
             f'type_check_references rejects a property that is well-typed under the schema: {type(r).__name__}: {str(r)[:300]}\ntext: {text!r}',
         )  # fmt: skip
     return nrefs
@@ -132,7 +132,7 @@ def sub_predicate(inp):
     k, a = lib.outcome(kind, text)
     if k != 'ast':
         raise Violation(
-            'welltyped', f'rejected:{k}:{type(a).__name__}', dict(inp, text=text),
+            'predicate', f'rejected:{k}:{type(a).__name__}', dict(inp, text=text),
             f'a {kind} that is well-typed under its schema is rejected with {type(a).__name__}: {str(a)[:300]}\ntext: {text!r}',
         )  # fmt: skip
     if astx.cname(a) in ('HplVacuousTruth', 'HplContradiction'):
@@ -143,7 +143,7 @@ def sub_predicate(inp):
     var_toks = {al: typetok.message(sc, 'A_' + al) for al, sc in inp['aliases'].items()}
     st, r = core.guarded(a.type_check_references, this_tok, var_toks)
     if st == 'exc':
-        raise Violation('welltyped', f'schema-check:{core.exc_sig(r)}', dict(inp, text=text), f'type_check_references rejects the well-typed {kind} {text!r}: {type(r).__name__}: {str(r)[:300]}')
+        raise Violation('predicate', f'schema-check:{core.exc_sig(r)}', dict(inp, text=text), f'type_check_references rejects the well-typed {kind} {text!r}: {type(r).__name__}: {str(r)[:300]}')
     return n
 
 
